@@ -40,8 +40,8 @@ RHO = ["r25", "r1", "relem"]
 
 CONT_SIMS = {
     # sim: (space dimension, element types, materials)
-    "elastic2d": (2, Z.TYPES_2D, ["iso_ps", "iso_pe", "aniso", "tiso", "hetero"]),
-    "elastic3d": (3, Z.TYPES_3D, ["iso", "aniso", "tiso", "hetero"]),
+    "elastic2d": (2, Z.TYPES_2D, ["iso_ps", "iso_pe", "aniso", "tiso", "ortho", "hetero"]),
+    "elastic3d": (3, Z.TYPES_3D, ["iso", "aniso", "tiso", "ortho", "hetero"]),
     "thermal1d": (1, Z.TYPES_1D, ["k1", "khet"]),
     "thermal2d": (2, Z.TYPES_2D, ["k1", "khet"]),
     "thermal3d": (3, Z.TYPES_3D, ["k1", "khet"]),
@@ -116,7 +116,7 @@ def describe(tier, seed):
                   "[x y-axis choice in 3D]); mixed meshes with scalar density"),
         "alphabet": {"simulations": len(CONT_SIMS) + 2 * len(BEAM_DIMS), "sim_x_elemType_pairs": n_c + 24,
                      "meshes_continuum": len(CONT_MESHES) + (4 if tier == "thorough" else 0), "meshes_beam": 5,
-                     "materials_elastic2d": 5, "materials_elastic3d": 4, "materials_thermal": 2, "thickness": 2, "density": 3,
+                     "materials_elastic2d": 6, "materials_elastic3d": 5, "materials_thermal": 2, "thickness": 2, "density": 3,
                      "beam_directions_2d": 4 + (2 if tier == "thorough" else 0), "beam_directions_3d": 4},
         "assumptions": [
             "meshes are connected, without orphan nodes, >= 2 elements (verified per case; otherwise skipped and counted)",
@@ -514,6 +514,8 @@ def build_material(sim, mat, thick, d, Ne):
     if mat == "aniso":
         C = spd_matrix(3 if d == 2 else 6, "C")
         return E.Anisotropic(d, C, useVoigtNotation=False, thickness=th), None
+    if mat == "ortho":
+        return E.Orthotropic(d, 3.0, 2.0, 1.0, 0.9, 0.8, 0.7, 0.2, 0.25, 0.3, planeStress=False, thickness=th), None
     if mat == "tiso":
         r = rng("c02tiso", d)
         if d == 2:
